@@ -27,23 +27,43 @@ LOCATIONS = [None, ("prefix", "x/build/y"), ("prefix", "home/env"), ("prefix", "
 FX = "import pytest\n\n@pytest.fixture\ndef fx_{0}():\n    return 1\n\n@pytest.fixture\ndef lonely_{0}():\n    return 2\n\ndef test_{0}(fx_{0}):\n    pass\n"
 
 
-def glob_match(pat, s):
-    # glob::Pattern::matches with default options on the forms of PATTERNS: `*`/`**` any run incl. '/', `?` one char
-    import re
-    rx = ""
-    i = 0
+def glob_tokens(pat):
+    toks, i = [], 0
     while i < len(pat):
-        c = pat[i]
-        if c == "*":
-            while i + 1 < len(pat) and pat[i + 1] == "*":
+        if pat.startswith("**/", i):
+            toks.append("REC"); i += 3
+        elif pat[i:] == "**":
+            toks.append("REC"); i += 2
+        elif pat[i] == "*":
+            while i < len(pat) and pat[i] == "*":
                 i += 1
-            rx += ".*"
-        elif c == "?":
-            rx += "."
+            toks.append("SEQ")
+        elif pat[i] == "?":
+            toks.append("ANY"); i += 1
         else:
-            rx += re.escape(c)
-        i += 1
-    return re.fullmatch(rx, s, re.S) is not None
+            toks.append(pat[i]); i += 1
+    return toks
+
+
+def gmatch(toks, s):
+    if not toks:
+        return s == ""
+    t, ts = toks[0], toks[1:]
+    if t == "SEQ":
+        return any(gmatch(ts, s[k:]) for k in range(len(s) + 1))
+    if t == "REC":
+        return any((k == 0 or k == len(s) or s[k - 1] == "/") and gmatch(ts, s[k:]) for k in range(len(s) + 1))
+    if not s:
+        return False
+    if t == "ANY":
+        return gmatch(ts, s[1:])
+    return t == s[0] and gmatch(ts, s[1:])
+
+
+def glob_match(pat, s):
+    """glob::Pattern::matches with default options on the forms of PATTERNS (no character classes): `*` any run incl.
+    '/', `?` one character, `**/` (a whole component) any run of whole components, possibly none"""
+    return gmatch(glob_tokens(pat), s)
 
 
 def is_test_name(n):
@@ -77,6 +97,8 @@ def gen_tree(rng):
         imp = rng.choice(["conftest.py", "test_imp.py", "imp_test.py"])
         mod = "fx_mod_%d" % len(importers)
         form = rng.choice(["from .%s import *", 'pytest_plugins = ["%s"]', "from %s import *"])
+        if any(x[0] == (d + "/" if d else "") + imp for x in importers):
+            continue            # one importer per path (a second one would overwrite the first one's text)
         files[(d + "/" if d else "") + imp] = (form % mod) + "\n" + FX.format("i%d" % len(importers))
         files[(d + "/" if d else "") + mod + ".py"] = FX.format("m%d" % len(importers))
         importers.append(((d + "/" if d else "") + imp, (d + "/" if d else "") + mod + ".py"))
